@@ -11,27 +11,33 @@ def LogRec.WF (host : Str) (r : LogRec) : Prop :=
   (∀ c ∈ r.name, isScalar c = true) ∧ (∀ c ∈ host, isScalar c = true) ∧ (∀ c ∈ r.msg, isScalar c = true) ∧
   (∀ c ∈ r.levelname, isScalar c = true) ∧ (∀ c ∈ r.pathname, isScalar c = true) ∧ (∀ c ∈ r.funcName, isScalar c = true) ∧
   (∀ t ∈ r.tags, ∀ s ∈ t, ∀ c ∈ s, isScalar c = true) ∧ (∀ s ∈ r.excText, ∀ c ∈ s, isScalar c = true) ∧
-  r.created.Valid ∧ r.levelno ∈ levels
+  r.created.Valid ∧ r.levelno ∈ levels ∧ (∀ s ∈ r.stackInfo, ∀ c ∈ s, isScalar c = true)
 
 theorem isScalar_of_lt (c : Nat) (h : c < 128) : isScalar c = true := by
   simp [isScalar]; omega
 
-theorem queuePrepare_wf (host : Str) (r : LogRec) (h : r.WF host) : (queuePrepare r).WF host := by
-  obtain ⟨h1, h2, h3, h4, h5, h6, h7, h8, h9, h10⟩ := h
-  unfold queuePrepare
-  cases he : r.excText with
-  | none => exact ⟨h1, h2, h3, h4, h5, h6, h7, by simp [he], h9, h10⟩
+theorem appendBlock_scalar (s : Str) (o : Option Str) (hs : ∀ c ∈ s, isScalar c = true) (ho : ∀ e ∈ o, ∀ c ∈ e, isScalar c = true) :
+    ∀ c ∈ appendBlock s o, isScalar c = true := by
+  cases o with
+  | none => exact hs
   | some e =>
-    have hes := h8 e (by simp [he])
-    refine ⟨h1, h2, ?_, h4, h5, h6, h7, by simp, h9, h10⟩
-    intro c hc
-    simp only [List.mem_append] at hc
-    rcases hc with hc | hc | hc
-    · exact h3 c hc
-    · split at hc
-      · simp at hc
-      · simp at hc; subst hc; decide
-    · exact hes c hc
+    have he := ho e rfl
+    simp only [appendBlock]
+    split
+    · exact hs
+    · intro c hc
+      simp only [List.mem_append] at hc
+      rcases hc with hc | hc | hc
+      · exact hs c hc
+      · split at hc
+        · simp at hc
+        · simp at hc; subst hc; decide
+      · exact he c hc
+
+theorem queuePrepare_wf (host : Str) (r : LogRec) (h : r.WF host) : (queuePrepare r).WF host := by
+  obtain ⟨h1, h2, h3, h4, h5, h6, h7, h8, h9, h10, h11⟩ := h
+  refine ⟨h1, h2, ?_, h4, h5, h6, h7, by simp [queuePrepare], h9, h10, by simp [queuePrepare]⟩
+  exact appendBlock_scalar _ _ (appendBlock_scalar _ _ h3 h8) h11
 
 theorem pad2_lt (n : Nat) : ∀ c ∈ pad2 n, c < 128 := by
   intro c hc; simp [pad2] at hc; omega
@@ -108,7 +114,7 @@ theorem formatRec_eq (host : Str) (lr : LogRec) (p : Nat) (h : fromLevel lr.leve
 theorem formatRec_spec (host : Str) (lr : LogRec) (h : lr.WF host) :
     ∃ p r, fromLevel lr.levelno = some p ∧ toLevel p = some lr.levelno ∧ formatRec host lr = some r ∧ r.prio = p ∧
       r.Readable ∧ asRead r (dtOf r) = expectRead host lr p := by
-  obtain ⟨h1, h2, h3, h4, h5, h6, h7, h8, h9, h10⟩ := h
+  obtain ⟨h1, h2, h3, h4, h5, h6, h7, h8, h9, h10, _⟩ := h
   obtain ⟨p, hp, htl, hp8⟩ := fromLevel_spec lr.levelno h10
   have hiso : parseIso (isoformat lr.created) = .ok lr.created := parseIso_isoformat lr.created h9
   have hdt : dtOf (fmtOf host lr p) = lr.created := by simp [dtOf, fmtOf, hiso]
